@@ -224,7 +224,7 @@ CFG_PROGRAMS = ["std.extVar('a')", "std.extVar('missing')", "[std.extVar('a'), s
 CFG_VALUES = [("str", ""), ("str", "x"), ("str", "é😀"), ("str", "1+"), ("code", "1+1"), ("code", "1+"), ("code", "error 'e'"), ("code", "function(x) x"),
               ("code", "std.extVar('a')"), ("code", "std.extVar('b')"), ("code", "import 'nonexistent.jsonnet'"), ("code", "{a: std.extVar('b')}"),
               ("code", "local r(n) = r(n + 1); r(0)"), ("code", ""), ("code", "\u0000"), ("strfile", "/nonexistent/file"), ("codefile", "/nonexistent/file"),
-              ("codefile", "/dev/null"), ("strfile", "/proc/self/cmdline")]
+              ("codefile", "/dev/null"), ("strfile", "/dev/null")]
 
 
 def config_cases(rng, n):
